@@ -18,6 +18,7 @@
 From Kit.Lib Require Import Base.
 From Kit.C04 Require Import Cal Zone Str Parse Next Spec Bridge Check.
 From Kit.C04 Require Import Proofs_Local Proofs_Parse Proofs_Next Proofs_Ref Proofs_Fast Proofs_Bits.
+From Kit.C04 Require Import Proofs_Check Proofs_Denote.
 From Coq Require Import ZArith NArith List String.
 Import ListNotations.
 Open Scope Z_scope.
@@ -186,6 +187,99 @@ Theorem C04_parse_sets_in_bounds : forall v o ll pd spec sec mi hr dm mo dw loc,
   set_within dm 1 31 /\ set_within mo 1 12 /\ set_within dw 0 6.
 Proof. exact parse_sets_in_bounds. Qed.
 Print Assumptions C04_parse_sets_in_bounds.
+
+(* ---------------------------------------------------------------------------------------- *)
+(* PARSE_DENOTES: concrete syntax -> six sets                                                *)
+
+(* [parse_doc_out o spec] (Check.v) is the documented grammar's opinion on a spec, written
+   with Spec.v only: numbers, month / day names in any capitalisation, '*', '?' (day fields),
+   v-w, */s, v/s, v-w/s, comma lists; fields split on white space and completed for the
+   option set o (omitted seconds = 0, omitted or optional fields). It is Some (ObsOk ...) -
+   the six denoted sets, bit 63 = the field is unrestricted - when every item is valid,
+   Some ObsErr when some item is not (value out of range, inverted range, zero step) or when
+   some field holds an item the documentation refuses by name (a word of letters and digits
+   that is neither a number nor a name of that field - "Mayhem", "janx", "1e1", a month name
+   in the day-of-week field - or such a word as step), None
+   when the spec has a TZ prefix, is a descriptor, has the wrong number of fields or uses
+   syntax outside the documented grammar.
+   Whenever it has an opinion, the model of NewParser(o).Parse(spec) does exactly that - for
+   EVERY option set, either variant, any oracles. *)
+Theorem C04_parse_denotes : forall v o ll pd spec,
+  match parse_doc_out o spec with
+  | Some (ObsOk a b c d e f) => parse v o ll pd spec = Ok (SpecSched a b c d e f LocLocal)
+  | Some ObsErr => exists err, parse v o ll pd spec = Err err
+  | Some _ => False
+  | None => True
+  end.
+Proof. exact parse_denotes. Qed.
+Print Assumptions C04_parse_denotes.
+
+(* ... and behind a TZ= / CRON_TZ= prefix whose zone loads: the rest of the spec denotes the
+   same six sets and the schedule carries the loaded location. *)
+Theorem C04_parse_denotes_tz : forall v o ll pd spec loc rest,
+  new_parser_panics o = false -> spec <> [] -> strip_tz v ll spec = Ok (loc, rest) ->
+  match parse_doc_out o rest with
+  | Some (ObsOk a b c d e f) => parse v o ll pd spec = Ok (SpecSched a b c d e f loc)
+  | Some ObsErr => exists err, parse v o ll pd spec = Err err
+  | Some _ => False
+  | None => True
+  end.
+Proof. exact parse_denotes_tz. Qed.
+Print Assumptions C04_parse_denotes_tz.
+
+(* One field: a comma list of documented items read by getField gives exactly the denoted
+   set (Some (Some bits)) or an error (Some None: some item invalid). [fr_ok f r] ties a field
+   of the grammar to the bounds of the code; it holds for the six fields (next theorem). *)
+Theorem C04_field_denotes : forall f r s, fr_ok f r ->
+  match doc_field f s with
+  | Some (Some bits) => get_field s r = Ok bits
+  | Some None => exists err, get_field s r = Err err
+  | None => True
+  end.
+Proof. exact field_denotes. Qed.
+Print Assumptions C04_field_denotes.
+
+Theorem C04_six_fields_ok :
+  fr_ok fs_second seconds /\ fr_ok fs_minute minutes /\ fr_ok fs_hour hours /\
+  fr_ok fs_dom dom /\ fr_ok fs_month months /\ fr_ok fs_dow dow.
+Proof. exact (conj fr_second (conj fr_minute (conj fr_hour (conj fr_dom (conj fr_month fr_dow))))). Qed.
+Print Assumptions C04_six_fields_ok.
+
+(* One item: valid -> the bit set of its documented denotation, with the star flag exactly
+   for '*', '?' and '*/1'; invalid -> an error. *)
+Theorem C04_item_denotes : forall f r e tm, fr_ok f r -> read_item f e = Some tm ->
+  if term_valid f tm
+  then exists bits, get_range e r = Ok bits /\ bits_denote bits (denote_term f tm) (wildcard tm)
+  else exists err, get_range e r = Err err.
+Proof. exact item_denotes. Qed.
+Print Assumptions C04_item_denotes.
+
+(* Unknown names and non-numeric values: an item whose pieces are plain words, one of which is
+   neither a number nor a name of the field (or a non-numeric step), is refused by getRange. *)
+Theorem C04_refused_item_rejected : forall f r e,
+  fr_ok f r -> refused_item f e = true -> exists err, get_range e r = Err err.
+Proof. exact refused_item_rejected. Qed.
+Print Assumptions C04_refused_item_rejected.
+
+(* REMAINDER (not a theorem): descriptors (@yearly ... are fixed bit sets in the model, not
+   related to a grammar), and the syntax the code accepts BEYOND the documented grammar
+   ("*-5", "+5", '?' outside the day fields, empty list items, U+0130 / U+212A in names): for
+   those only C04_item_denotes_range above speaks (a stepped range inside the bounds). *)
+
+(* ---------------------------------------------------------------------------------------- *)
+(* the shortcuts of the correspondence check are sound                                       *)
+
+(* Check.v runs the model with 2^22 loop tests: a result it reaches is next_model's result. *)
+Theorem C04_check_fuel_sound : forall n b z t r, (n <= next_fuel)%nat ->
+  next_model_fuel n b z t = r -> r <> OutOfFuel -> next_model b z t = r.
+Proof. exact next_model_fuel_result. Qed.
+Print Assumptions C04_check_fuel_sound.
+
+(* A call the check finds stuck (verdict 2 for an observed hang) never returns in the model. *)
+Theorem C04_model_stuck_sound : forall b z t,
+  model_stuck b z t = true -> next_model b z t = OutOfFuel.
+Proof. exact model_stuck_sound. Qed.
+Print Assumptions C04_model_stuck_sound.
 
 (* ---------------------------------------------------------------------------------------- *)
 (* the parser refuses malformed expressions (and never panics on the current tree)           *)
